@@ -579,6 +579,9 @@ func (c *Collection) writeWithXattrs(
 				}
 			}
 		}
+		if e.value == nil {
+			e.isDeletion = true // an xattr-only write to a doc without a body leaves it a tombstone
+		}
 
 		if opts.preserveXattr {
 			// The xPreserveXattr flag means to keep the xattr's value (but do macro expansion.)
